@@ -323,4 +323,12 @@ pub fn gen_c12(ctx: &Ctx, rng: &mut Rng, out: &mut Vec<String>) {
         bcf_safe(&mut recs);
         out.push(format!("c12.same\t{}\t{}\t{sl}\t{proj}\t0\t{}\t{}", i % 2, cols(ncols).join(","), if proj == "N" { "-" } else { "6" }, records_str(&recs)));
     }
+    // sample lists that repeat a sample (the later entry decides its population): a population may lose its only sample, the
+    // remaining ones must keep first-appearance order in every run (hash-ordered containers must not reach the output)
+    for (k, sl) in ["s:s0=A,s1=B,s2=C,s3=B,s0=B", "s:s0=A,s1=B,s2=C,s3=D,s4=C,s0=D,s1=D", "S:s2=X,s0=Y,s1=Z,s3=Z,s2=Z,s4=Y"].iter().enumerate() {
+        if k == 2 && !ctx.tier_thorough { continue; }
+        let assign: Vec<Option<usize>> = vec![Some(0); 5];
+        let recs: Vec<(String, usize, Vec<String>)> = (0..25).map(|r| ("1".to_string(), 1 + r, record(&mut g, &assign, [92, 8, 0, 0], false, false))).collect();
+        out.push(format!("c12.same\t0\t{}\t{sl}\tN\t0\t-\t{}", cols(5).join(","), records_str(&recs)));
+    }
 }
